@@ -21,6 +21,7 @@ use serde_json::{json, Value};
 pub mod csdump;
 pub mod family;
 pub mod recording;
+pub mod shape;
 
 pub struct Ctx {
     pub id: String,
